@@ -111,6 +111,30 @@ def collect(seed, n, what):
     return out
 
 
+def add_sharing(v, rnd):
+    """Put a second reference to one of v's own containers into v (a DAG, no cycle)."""
+    conts = []
+
+    def walk(x, depth):
+        if isinstance(x, (list, dict)):
+            if depth > 0:
+                conts.append(x)
+            for y in (x if isinstance(x, list) else x.values()):
+                walk(y, depth + 1)
+
+    walk(v, 0)
+    if not isinstance(v, (list, dict)) or not conts:
+        return v, False
+    c = rnd.choice(conts)
+    if isinstance(v, list):
+        v.append(c)
+        v.insert(0, c)
+    else:
+        v["shared1"] = c
+        v["shared2"] = [c, c]
+    return v, True
+
+
 def nontrivial(v):
     kinds = set()
     boundary = [False]
@@ -193,7 +217,9 @@ def roundtrip_task(values):
     import copy
 
     if isinstance(values, tuple):  # (seed, n): generate here
+        rnd = random.Random(values[0])
         values = collect(values[0], values[1], "value")
+        values = [add_sharing(v, rnd)[0] if i % 3 == 0 else v for i, v in enumerate(values)]
     gen = values
 
     m = engine.load()
@@ -275,6 +301,11 @@ def literal_task(values):
         r2 = guarded(lambda: (ctx.eval("var w = %s;" % src), ctx.get("w"))[1])
         r3 = guarded(lambda: ctx.eval("var u = [undefined, %s, undefined]; u" % src))
         out.append((v, src, exp, r1, r2, r3))
+        if isinstance(v, (list, dict)):
+            # the same script object reachable twice (no cycle) converts like two equal values
+            ssrc = "(function(){ var s = %s; return [s, {k: s}, s]; })()" % src
+            r4 = guarded(lambda: ctx.eval(ssrc))
+            out.append((v, ssrc, [exp, {"k": exp}, exp], r4, r4, guarded(lambda: ctx.eval("var u = [undefined, %s, undefined]; u" % ssrc))))
     return out
 
 
@@ -309,6 +340,66 @@ def callable_task(arglists):
                 conv.append(("prim", "<NULL>" if raw is m.NULL else ("<UNDEFINED>" if raw is m.UNDEFINED else raw)))
         out.append({"args": args, "lits": [l[1] for l in lits], "res": res, "ncalls": len(calls), "argc": [len(c) for c in calls], "conv": conv, "rets": list(rets)})
     return out
+
+
+FALSY_RETURNS = [0, "", False, 0.0, None, 5, "x", True, -0.0, 2.5]
+CALLBACK_FORMS = [
+    ("map", "[10, 20, 30].map(h)", 3), ("forEach", "[10, 20].forEach(h)", 2), ("filter", "[10, 20, 30].filter(h)", 3),
+    ("some", "[10, 20].some(h)", None), ("every", "[10, 20].every(h)", None), ("find", "[10, 20].find(h)", None),
+    ("reduce", "[10, 20].reduce(h, 7)", 2), ("sort", "[3, 1, 2].sort(h).length", None),
+    ("call", "h.call(null, 10)", 1), ("apply", "h.apply(null, [10, 20])", 1), ("bind", "h.bind(null, 10)(20)", 1),
+    ("direct", "h(10)", 1), ("method", "({m: h}).m(10)", 1), ("nested", "[1].map(function(x){ return h(x); })", 1),
+    ("argument", "(function(f){ return f(10); })(h)", 1), ("getter-result", "({get p(){ return h(10); }}).p", 1),
+]
+
+
+def callback_task(task):
+    """Exposed callables invoked *by built-ins*: every return value must arrive unchanged."""
+    m = engine.load()
+    out = []
+    for (form, expr, ncalls, start) in task:
+        calls = []
+        rets = FALSY_RETURNS[start:] + FALSY_RETURNS[:start]
+
+        def h(*a):
+            calls.append(len(a))
+            return rets[(len(calls) - 1) % len(rets)]
+
+        ctx = m.Context(time_limit=10)
+        ctx.set("h", h)
+        src = ("var enc = function(v){ return Array.isArray(v) ? v.map(function(e){ return [typeof e, e]; }) : [typeof v, v]; }; enc(%s)" % expr)
+        res = guarded(lambda: ctx.eval(src))
+        out.append((form, expr, start, res, list(calls), rets))
+    return out
+
+
+def expected_callback(form, rets, calls):
+    """What the script must see, from the values the Python callable returned."""
+    def tv_(v):
+        t = {type(None): "undefined", bool: "boolean", int: "number", float: "number", str: "string"}[type(v)]
+        return [t, v]
+    truthy = lambda v: bool(v) and not (isinstance(v, float) and v != v)
+    seq = [rets[i % len(rets)] for i in range(len(calls))]
+    if form == "map":
+        return [tv_(v) for v in seq]
+    if form == "forEach":
+        return ["undefined", None]
+    if form == "filter":
+        return [tv_(e) for e, v in zip([10, 20, 30], seq) if truthy(v)]
+    if form in ("call", "apply", "bind", "direct", "method", "argument", "getter-result"):
+        return tv_(seq[0])
+    if form == "nested":
+        return [tv_(seq[0])]
+    if form == "reduce":
+        return tv_(seq[-1])
+    if form == "some":
+        return ["boolean", any(truthy(v) for v in seq)]
+    if form == "every":
+        return ["boolean", all(truthy(v) for v in seq)]
+    if form == "find":
+        hit = [e for e, v in zip([10, 20], seq) if truthy(v)]
+        return tv_(hit[0]) if hit else ["undefined", None]
+    return None
 
 
 def interleave_task(seeds):
@@ -542,6 +633,26 @@ def main(chk):
                 chk.violation("callable|return-value|%s" % type(ret1).__name__, case, [exp_t, show(ret1)], [t1, show(r1)], sub="callable")
             else:
                 chk.sample({"sub": "callable", "args": show(args)[:3], "returned": show(ret1)}, cls="call", per_class=3)
+    # 4b: callables run by built-ins, falsy and other return values
+    cb_tasks = [(form, expr, n_, start) for (form, expr, n_) in CALLBACK_FORMS for start in range(len(FALSY_RETURNS))]
+    res = pool.run(callback_task, pool.chunks(cb_tasks, 10), timeout=600)
+    for rb in res:
+        if isinstance(rb, (pool.HANG, pool.CRASH)):
+            chk.violation("callback|%r" % rb, {"sub": "callback"}, None, repr(rb), sub="callback")
+            continue
+        for form, expr, start, r, calls, rets in rb:
+            chk.count()
+            chk.nontrivial("cb|%s|%d" % (form, start))
+            case = {"sub": "callback", "form": form, "expr": expr, "returns": [show(x) for x in rets[:4]]}
+            st, got = r
+            if st != "ok":
+                chk.violation("callback|raises|%s" % form, case, "value", got, sub="callback")
+                continue
+            exp = expected_callback(form, rets, calls)
+            if exp is not None and not neq(got, exp):
+                chk.violation("callback|return-value-changed|%s" % form, case, show(exp), show(got), sub="callback")
+            elif start == 0:
+                chk.sample({"sub": "callback", "expr": expr, "script_saw": show(got)}, cls="cb", per_class=4)
     # 5: interleavings
     seeds = [core.shard_seed(chk.seed, "C11", "inter", i) % (2 ** 31) for i in range(300 if quick else 6000)]
     batches = pool.chunks(seeds, 20)
